@@ -173,6 +173,11 @@ VARIANTS = {
     # name: (compiler, flags)
     "exact": ("g++", ["-std=c++17", "-O1", "-w"]),
     "exact_checks": ("g++", ["-std=c++17", "-O1", "-w", "-DBSPLINE_ADD_TEST_CHECKS"]),
+    "fp": ("g++", ["-std=c++17", "-O2", "-w", "-DVH_FP"]),
+    "fp_checks": ("g++", ["-std=c++17", "-O2", "-w", "-DVH_FP", "-DBSPLINE_ADD_TEST_CHECKS"]),
+    "fp_O0": ("g++", ["-std=c++17", "-O0", "-w", "-DVH_FP"]),
+    "fp_O3": ("g++", ["-std=c++17", "-O3", "-w", "-DVH_FP"]),
+    "fp_clang": ("clang++-14", ["-std=c++17", "-O2", "-w", "-DVH_FP"]),
     "san": ("clang++-14", ["-std=c++17", "-O1", "-g", "-w", "-fsanitize=address,undefined",
                            "-fno-sanitize-recover=undefined", "-fno-omit-frame-pointer", "-D_GLIBCXX_ASSERTIONS"]),
 }
